@@ -276,3 +276,54 @@ func literalsOf(fn *ssa.Function, typ string) []*ssa.Alloc {
 	})
 	return out
 }
+
+// structFieldValue: v is a struct value (the load of a local composite literal, or a parameter passed on); the value
+// stored into its field `name` where it was built, nil when that cannot be told.
+func structFieldValue(v ssa.Value, name string) ssa.Value {
+	switch x := v.(type) {
+	case *ssa.UnOp:
+		if x.Op == token.MUL {
+			if a, ok := x.X.(*ssa.Alloc); ok {
+				return litField(a, name)
+			}
+		}
+	case *ssa.Parameter:
+		// passed straight on: the field of the caller's parameter
+		st, _ := x.Type().Underlying().(*types.Struct)
+		if st == nil {
+			return nil
+		}
+		for _, r := range *x.Referrers() {
+			if f, ok := r.(*ssa.Field); ok && st.Field(f.Field).Name() == name {
+				return f
+			}
+		}
+	}
+	return nil
+}
+
+// paramBehind: v is a parameter, or the local cell a by-value struct parameter is spilled to (go/ssa stores such a
+// parameter into an Alloc when its fields are selected).
+func paramBehind(v ssa.Value) *ssa.Parameter {
+	switch x := v.(type) {
+	case *ssa.Parameter:
+		return x
+	case *ssa.UnOp:
+		if x.Op == token.MUL {
+			return paramBehind(x.X)
+		}
+	case *ssa.Alloc:
+		var prm *ssa.Parameter
+		n := 0
+		for _, r := range *x.Referrers() {
+			if st, ok := r.(*ssa.Store); ok && st.Addr == x {
+				n++
+				prm, _ = st.Val.(*ssa.Parameter)
+			}
+		}
+		if n == 1 {
+			return prm
+		}
+	}
+	return nil
+}
